@@ -72,6 +72,19 @@ Fixpoint no_nested_option (t : ty) : Prop :=
   | _ => True
   end.
 
+(* every integer type of the declaration has a positive width *)
+Fixpoint ints_ok (t : ty) : Prop :=
+  match t with
+  | TInt bits _ => 0 < bits
+  | TOption t' => ints_ok t'
+  | TVec t' => ints_ok t'
+  | TStruct fs =>
+    (fix go (l : list (str * option str * ty)) : Prop :=
+       match l with [] => True | (_, t') :: r => ints_ok t' /\ go r end) fs
+  | TTuple ts => (fix go (l : list ty) : Prop := match l with [] => True | t' :: r => ints_ok t' /\ go r end) ts
+  | _ => True
+  end.
+
 (* integer ranges *)
 Definition int_lo (bits : N) (signed : bool) : Z :=
   if signed then (- 2 ^ (Z.of_N bits - 1))%Z else 0%Z.
